@@ -16,6 +16,13 @@
    configured as `actions` through the public fd.SetupActions on a real running pipeline with a
    recording action ("Do invoked <=> expected").  The README result tables are replayed the same way
    as literal vectors.
+   Busy-action family (every rule): the chain is [recording action with the rule, a harness-owned holding
+   action that behaves like join (ActionHold / ActionCollapse / Propagate)]; a run is opened so that the
+   processor has a busy action, then all events (and, in-package, a time-out event, which is not judged) go
+   through processor.doActions, in-package and on the running pipeline configured by fd.SetupActions:
+   "Do invoked" of the recording action must still be the expectation for (rule, event) alone.  The guard
+   is specified in specs/ActionChain.tla (mechanism M_SelectorIndependentOfOtherActions; the mutant with
+   busyActionsTotal must be rejected by TLC).
 3. Concurrency family: for a seeded selection of rules (mostly case-insensitive string operators, plus
    trees, other leaves, match_fields rules and the README vectors) ONE checker / ActionPluginStaticInfo
    per rule is shared, as in Pipeline.newProc, by several real processors driven by concurrent
@@ -538,6 +545,11 @@ def run(ctx):
     if tier == "thorough":
         # residual configurations: all deviation switches off; the invariants must hold with no excuse
         ctx.tlc_expect_ok("DoIf", "DoIf_fixed.cfg", count=False, timeout=900, deadlock=False)
+    # the guard in front of the selector (processor.doActions): own busy flag, not busyActionsTotal
+    ctx.tlc_expect_ok("ActionChain", "ActionChain_%s.cfg" % tier, timeout=300, deadlock=False)
+    mu = ctx.tlc("ActionChain", "ActionChain_mutant.cfg", timeout=300, deadlock=False, name="ActionChain/mutant")
+    if mu.ok or mu.violated != "SelectorDecides":
+        raise vlib.Infra("spec mutant ~M_SelectorIndependentOfOtherActions was not rejected by TLC: %s" % mu.violated)
     # spec mutant: the repaired defect D11 switched back on must be rejected by TLC (ImplMatchesDecl)
     mu = ctx.tlc("MatchFields", "MatchFields_mutant_d11.cfg", timeout=600, deadlock=False, name="MatchFields/mutant_d11")
     if mu.ok or mu.violated != "ImplMatchesDecl":
@@ -557,7 +569,8 @@ def run(ctx):
                 "match_invert, 1-3 conditions, nested and dotted paths) + %d README vectors, each on every event of its part "
                 "(absent / null / number / string incl. U+0130 / object / array / nested), enumerated by TLC and ALL replayed on "
                 "the real constructors and doif.Checker.Check / processor.doActions / processor.isMatch in two event orders. "
-                "Then a seeded selection of rules is evaluated concurrently (one shared checker, several processors / a parallel "
+                "Every rule is also replayed at the head of a chain whose last action holds a run (busy processor), "
+                "in-package and on the running pipeline. Then a seeded selection of rules is evaluated concurrently (one shared checker, several processors / a parallel "
                 "pipeline): every concurrent decision must equal the sequential one (detection probabilistic). "
                 "evaluations = (rule, event) pairs; non-trivial = pairs whose value the documentation decides (T/F), the others "
                 "(U) are only checked for order/path independence; traces = real decisions compared."
